@@ -20,9 +20,9 @@ Definition mkval (rd : N) (closing connect mreq mitm_ : bool) (rt st : N) (mres 
   Build_val (rd_of rd) closing connect mreq mitm_ (rt_of rt) (st_of st) mres rwc (cn_of cn) (w_of w) drain reqclose (after_of after).
 
 Definition mkfeat (win : bool) (op : N) (rec cert ech alert : bool) (st : option N)
-                  (auth deny prohibited canceled https : bool) (text : N) : feat :=
+                  (auth deny prohibited canceled https : bool) (text : N) (timeout : bool) : feat :=
   Build_feat win (if op =? 0 then None else if op =? 1 then Some false else Some true)
-             rec cert ech alert st auth deny prohibited canceled https text.
+             rec cert ech alert st auth deny prohibited canceled https text timeout.
 
 (* ---- observations ---- *)
 (* one ProxyTrace event as seen through the hook *)
